@@ -21,6 +21,7 @@ def run(chk):
     chk.rule("T.open-toggle", "an open edge crossing a closed edge toggles its contribution iff the closed edge bounds the region the open "
              "path is cut against (non-Union: clip edge on the clip-filled boundary; Union: edge of the closed solution)")
     chk.rule("HORZ.open-end", "DoHorizontal keeps its end-of-segment tests active unless the edge is a closed-path maximum (an open end has no maxima pair)")
+    chk.rule("OPEN.flag", "the four output builders pass isOpen = true exactly in the branch where outrec->is_open holds (flow-sensitive on the test)")
     chk.rule("OUTPUT.reset", "every Execute overload empties its open-paths output (directly or in the builder it hands it to) before anything is added to it")
     chk.rule("OPENFLAG.preserved", "has_open_paths_ (which switches IntersectEdges' open-path branch on) is not written by any Execute overload: it is set "
              "by the Add family and reset by Clear together with the paths")
@@ -32,8 +33,9 @@ def run(chk):
         e3.table_open_toggle(db, chk, cfg)
         e3.closing_vertex_rule(db, chk, cfg)
         e3.horz_open_end_rule(db, chk, cfg)
-        # the open solution is rebuilt, not appended to what the caller's vector held
         from ..engines import e10_pipeline as e10
+        e10.rule_open_flag(db, chk, cfg)
+        # the open solution is rebuilt, not appended to what the caller's vector held
         execs = [g for g in db.find("Clipper64::Execute") + db.find("ClipperD::Execute")]
         e10.rule_outputs_reset(db, chk, cfg, execs, only=lambda g, p0: "open" in (p0.get("name") or ""))
         # the open-path flag describes the loaded input: no Execute may change it (the open paths themselves stay loaded)
